@@ -2,10 +2,12 @@ package main
 
 import (
 	"fmt"
+	"math/rand"
 	"os"
 	"os/exec"
 	"path/filepath"
 	"strings"
+	"sync"
 	"time"
 
 	"github.com/ddddddO/gtree"
@@ -179,7 +181,83 @@ func checkC17(r *evid.Run) {
 			checkWasmState(r, pool, d, concs)
 		})
 	}
+	c17Random(r, pool)
 	r.Set("tinywasm_worker_deaths", pool.Deaths())
 	r.Set("exhaustive", true)
 	r.Set("rule", "C01's well-formed documents and C02's line-pool documents (malformed included), each run through the default build and the tinywasm build (a second process compiled with -tags tinywasm) in 4 modes: text, custom branch strings, JSON, dry-run with an extension; decisions compared with each other and with the specification, bytes compared when accepted; non-trivial = at least 2 lines")
+}
+
+// c17Random: random documents (wide and deep forests, every spelling, injected malformations incl. a
+// jump right after a dedent), default build vs tinywasm build, in the four claimed modes.
+func c17Random(r *evid.Run, pool *wproto.Pool) {
+	n := 600
+	if r.Tier == "thorough" {
+		n = 6000
+	}
+	rng := rand.New(rand.NewSource(r.Seed*2654435761 + 99))
+	p := genParams{MaxNodes: 30, MaxDepth: 6, MaxRoots: 4, NChunks: 10, Hostile: true}
+	var wg sync.WaitGroup
+	sem := make(chan struct{}, 32)
+	for i := 0; i < n; i++ {
+		c := tok.TraceConc(rng, p.NChunks)
+		// names with the characters encoding/json escapes for HTML, and a '%'
+		c.Chunks["k1"], c.Chunks["k2"], c.Chunks["k3"] = "R&D", "<b>", "50%d"
+		doc := spell(rng, randForest(rng, p), randSpelling(rng))
+		switch i % 3 {
+		case 1:
+			doc = injectC02(rng, doc)
+		case 2:
+			doc = injectJumpAfterDedent(rng, doc)
+		}
+		d := &DocState{N: i, Doc: doc, Verdict: "grey"}
+		wg.Add(1)
+		sem <- struct{}{}
+		go func() {
+			defer wg.Done()
+			defer func() { <-sem }()
+			checkWasmState(r, pool, d, []*tok.Conc{c})
+		}()
+	}
+	wg.Wait()
+	r.Count("random_documents", n)
+}
+
+// injectJumpAfterDedent inserts, after a line that is shallower than its predecessor, a line indented
+// two levels deeper than that line (never well-formed, whatever was open further up before).
+func injectJumpAfterDedent(rng *rand.Rand, doc [][]string) [][]string {
+	indent := func(l []string) int {
+		k := 0
+		for k < len(l) && (l[k] == "SP" || l[k] == "TAB") {
+			k++
+		}
+		return k
+	}
+	var cands []int
+	for i := 1; i < len(doc); i++ {
+		if indent(doc[i]) < indent(doc[i-1]) && len(doc[i]) > 0 && doc[i][0] != "SH" {
+			cands = append(cands, i)
+		}
+	}
+	if len(cands) == 0 {
+		return doc
+	}
+	i := cands[rng.Intn(len(cands))]
+	unit := []string{"SP", "SP"}
+	for _, l := range doc {
+		if k := indent(l); k > 0 {
+			unit = l[:k]
+			for j := 1; j <= k; j++ { // the smallest indentation seen is the unit
+				if k%j == 0 && j < len(unit) {
+				}
+			}
+			break
+		}
+	}
+	ind := append([]string{}, doc[i][:indent(doc[i])]...)
+	ind = append(ind, unit...)
+	ind = append(ind, unit...)
+	line := append(ind, "HY", "SP", "k9")
+	out := append([][]string{}, doc[:i+1]...)
+	out = append(out, line)
+	return append(out, doc[i+1:]...)
 }
